@@ -22,11 +22,24 @@ MAX_BLOCKS = 400
 MAX_RESULT_BLOCKS = 2500
 
 
+REF_ARGC = {}
+
+
 def reference():
+    """set of reference function paths (lines `path<TAB>argc`; argc is used to recognise a moved function)"""
     if not os.path.exists(REF):
         return None
+    out = set()
     with open(REF, encoding='utf-8') as f:
-        return {l.rstrip('\n') for l in f if l.strip() and not l.startswith('#')}
+        for l in f:
+            l = l.rstrip('\n')
+            if not l.strip() or l.startswith('#'):
+                continue
+            parts = l.split('\t')
+            out.add(parts[0])
+            if len(parts) > 1 and parts[1].isdigit():
+                REF_ARGC[parts[0]] = int(parts[1])
+    return out
 
 
 def _shift(x, lo, bo):
@@ -323,7 +336,7 @@ def splice_new_helpers(facts, body_cls):
     ref = reference()
     if ref is None:
         return []
-    facts.ref_argc = {}
+    facts.ref_argc = dict(REF_ARGC)
     facts.moved = alias_moved_functions(facts, body_cls, ref)
     cand = {}
     for p, b in facts.bodies.items():
@@ -400,15 +413,15 @@ def freeze(repo='/repo'):
     """write the reference inventory from the current tree of `repo` (all build configurations)"""
     from . import build
     from .facts import Facts
-    paths = set()
+    paths = {}
     for cfg in ('dev', 'release', 'debug-rules'):
         path, digest, secs = build.build_facts(cfg, repo)
         f = Facts(path, splice=False)
-        paths |= {p for p, b in f.bodies.items() if b.kind in ('fn', 'method')}
+        paths.update({p: b.argc for p, b in f.bodies.items() if b.kind in ('fn', 'method')})
     with open(REF, 'w', encoding='utf-8') as out:
-        out.write('# function inventory of the reference tree (python3 -m scv.inline --freeze); see scv/inline.py\n')
+        out.write('# function inventory of the reference tree: path<TAB>number of parameters (python3 -m scv.inline --freeze); see scv/inline.py\n')
         for p in sorted(paths):
-            out.write(p + '\n')
+            out.write('%s\t%d\n' % (p, paths[p]))
     print('%d functions written to %s' % (len(paths), REF))
 
 
